@@ -146,6 +146,13 @@ Section Geo.
 End Geo.
 
 (* ------------------------------------------------------------------------------ part 2 *)
+(* interfaces: the cross terms and the minus-side piece use the MINUS mapping, the plus-side piece the plus one *)
+Lemma interface_mapping_spec mm mp a :
+  measure_of (JIface mm mp a) ICross = (mm, Some a) /\
+  measure_of (JIface mm mp a) IMinus = (mm, Some a) /\
+  measure_of (JIface mm mp a) IPlus = (mp, Some a).
+Proof. repeat split. Qed.
+
 Section RegionInd.
   Variable Pr : region -> Prop.
   Hypothesis HNone : Pr RNone.
